@@ -3,5 +3,6 @@ import QeepProps.C15z
 import QeepProps.C15w
 import QeepProps.C15v
 import QeepProps.C15u
+import QeepProps.C15t
 /-! C15 — all property theorems: `C15`, `C15x`, `C15y` (local backward passes, Softmax for every rank and dim) and `C15z`
-(Sigmoid, Relu, LeakyRelu, Tanh end to end: the gradient `BackPropagate` stores on the activation's input). `C15w` (leaf versions: `BackPropagate` succeeds, unconditionally, and stores `f'(x)`). `C15v` (Softmax, rank 1: the graph with identities, Softmax inside any walk — `x.Gradient()` is `s_j·(G_j − bfac·Σ G_i s_i)` — and on its own output: zeros in `sum` mode, `s_j·(1 − 1/n)` in `mean` mode, finding D2). `C15u` (`sigmoid_in_walk`: Sigmoid inside any walk, `x.Gradient() = G ⊙ σ'(x)` for the gradient `G` the walk leaves on the output). -/
+(Sigmoid, Relu, LeakyRelu, Tanh end to end: the gradient `BackPropagate` stores on the activation's input). `C15w` (leaf versions: `BackPropagate` succeeds, unconditionally, and stores `f'(x)`). `C15v` (Softmax, rank 1: the graph with identities, Softmax inside any walk — `x.Gradient()` is `s_j·(G_j − bfac·Σ G_i s_i)` — and on its own output: zeros in `sum` mode, `s_j·(1 − 1/n)` in `mean` mode, finding D2). `C15u` (`sigmoid_in_walk`: Sigmoid inside any walk, `x.Gradient() = G ⊙ σ'(x)` for the gradient `G` the walk leaves on the output). `C15t` (`sg_edge_ok`: the same for the Sigmoid graph). -/
